@@ -1,4 +1,4 @@
-import ScVerif.C16.EqualLemmas
+import ScVerif.C16.WireLemmas
 /-! The main induction: `Equal()` is `PEq ignoredField`. -/
 namespace ScVerif.C16
 
@@ -13,7 +13,7 @@ theorem nodup_keysN (p : String) (fs : Fields) (h : fs.keys.Nodup) : (keysN p fs
   List.Nodup.sublist (List.filter_sublist) h
 
 theorem msg_iff (tx ty : String) (vx vy : Bool) (fx fy : Fields) (ux uy : Unk)
-    (hx : fx.keys.Nodup) (hy : fy.keys.Nodup)
+    (hx : fx.keys.Nodup) (hy : fy.keys.Nodup) (hux : WireCut ux) (huy : WireCut uy)
     (H : ∀ fd a b, fx.get? fd = some a → fy.get? fd = some b →
       (eqField noCmp a b = true ↔ FEq ignoredField a b)) :
     (tx == ty && eqFieldsLoop noCmp (shortName tx) fx fy &&
@@ -35,7 +35,7 @@ theorem msg_iff (tx ty : String) (vx vy : Bool) (fx fy : Fields) (ux uy : Unk)
         obtain ⟨b, hb, _⟩ := hloop fd a hfd.2 ha
         exact ⟨by simp [hb], hfd.2⟩
     have hsup := subset_of_length_eq _ _ (nodup_keysN _ fx hx) hsub (by omega)
-    refine PEq.msg rfl ?_ ?_ ((eqUnknown_iff ux uy).1 hunk)
+    refine PEq.msg rfl ?_ ?_ ((eqUnknown_iff_wire ux uy hux huy).1 hunk)
     · intro fd hfd
       rw [Bool.eq_iff_iff]
       constructor
@@ -53,7 +53,7 @@ theorem msg_iff (tx ty : String) (vx vy : Bool) (fx fy : Fields) (ux uy : Unk)
     | msg ht hsome hval hunk =>
       subst ht
       simp only [Bool.and_eq_true, beq_iff_eq, true_and, beq_self_eq_true]
-      refine ⟨⟨?_, ?_⟩, (eqUnknown_iff ux uy).2 hunk⟩
+      refine ⟨⟨?_, ?_⟩, (eqUnknown_iff_wire ux uy hux huy).2 hunk⟩
       · rw [eqFieldsLoop_iff noCmp _ fx fy hx]
         intro fd a hfd ha
         have h1 := hsome fd hfd
@@ -141,7 +141,7 @@ mutual
       simp only [Val.WF] at hx hy
       unfold eqValue
       simp only [valueAnd_nil, Bool.false_eq_true, if_false]
-      exact msg_iff tx ty vx vy fx fy ux uy hx.1 hy.1 (fields_iff fx fy hx.2 hy.2)
+      exact msg_iff tx ty vx vy fx fy ux uy hx.1 hy.1 hx.2.2 hy.2.2 (fields_iff fx fy hx.2.1 hy.2.1)
   theorem field_iff : ∀ (x y : FVal), FVal.WF x → FVal.WF y →
       (eqField noCmp x y = true ↔ FEq ignoredField x y)
     | .one a, .one b, hx, hy => by
